@@ -2,7 +2,9 @@
 C14 line-protocol driver.
 
   ca <ev>;<ev>;…        a history of start-ups of the PKI app on one storage, oldest first
-      ev    = <life>:<fault>
+      ev    = <life>:<fault> | d:<key> | c:<key>><key>
+              (d / c = somebody deletes a stored value / copies one over another between two
+               start-ups: not an interruption — used only to reach the decode-error branches)
       life  = s | l            intermediate lifetime 1ns (inside its renewal window at once) | default
       fault = - | <k><mode>    k = 1-based index of the storage operation inside this start-up
       mode  = cb | ca | fb | fa   crash / fail (error returned), before / after the effect
@@ -69,9 +71,24 @@ def resToks : Res Mem → List Tok
 def eventToks (r : Res Mem) : List Tok :=
   resToks r ++ [.s " ["] ++ sepBy (.s ",") (r.sys.log.map opToks) ++ [.s "] {"] ++ storeToks r.sys.store ++ [.s "}"]
 
-def caToks (ord : Order) : List Event → Disk → List (List Tok)
+/-- a step of a `ca` line: a start-up, or tampering with the storage -/
+inductive CAStep
+  | start (e : Event)
+  | del (k : Key)
+  | copy (src dst : Key)
+
+def Store.unset (s : Store) (k : Key) : Store := fun k' => if k' = k then none else s k'
+
+def tamperToks (s : Store) : List Tok := [.s "T {"] ++ storeToks s ++ [.s "}"]
+
+def caToks (ord : Order) : List CAStep → Disk → List (List Tok)
   | [], _ => []
-  | e :: es, d => eventToks (e.run ord d) :: caToks ord es (e.after ord d)
+  | .start e :: es, d => eventToks (e.run ord d) :: caToks ord es (e.after ord d)
+  | .del k :: es, d => tamperToks (d.store.unset k) :: caToks ord es ⟨d.store.unset k, d.fresh⟩
+  | .copy a b :: es, d =>
+    match d.store a with
+    | some v => tamperToks (d.store.set b v) :: caToks ord es ⟨d.store.set b v, d.fresh⟩
+    | none => tamperToks (d.store.unset b) :: caToks ord es ⟨d.store.unset b, d.fresh⟩
 
 def lookupId (n : Nat) : List Nat → Nat → Option Nat
   | [], _ => none
@@ -100,15 +117,24 @@ def parseFault (s : String) : Option (Option Fault) :=
   | some k, some m => if k = 0 then none else some (some ⟨k, m⟩)
   | _, _ => none
 
-def parseCAEvent (now : Nat) (s : String) : Option Event :=
+def parseKey : String → Option Key
+  | "rc" => some .rootCrt | "rk" => some .rootKey | "ic" => some .intCrt | "ik" => some .intKey
+  | _ => none
+
+def parseCAEvent (now : Nat) (s : String) : Option CAStep :=
   match s.splitOn ":" with
+  | ["d", k] => (parseKey k).map .del
+  | ["c", ab] =>
+    match ab.splitOn ">" with
+    | [a, b] => do pure (.copy (← parseKey a) (← parseKey b))
+    | _ => none
   | [life, fault] =>
     match (if life == "s" then some 0 else if life == "l" then some longLife else none), parseFault fault with
-    | some lf, some ft => some ⟨⟨now, lf⟩, ft⟩
+    | some lf, some ft => some (.start ⟨⟨now, lf⟩, ft⟩)
     | _, _ => none
   | _ => none
 
-def parseCAEvents : List String → Nat → Option (List Event)
+def parseCAEvents : List String → Nat → Option (List CAStep)
   | [], _ => some []
   | s :: ss, now => do
     let e ← parseCAEvent now s
